@@ -35,3 +35,6 @@ From Bio.Model Require Smtext.
 Definition go_fields (s : list N) : list (list N) := Smtext.fields s.
 Definition go_parse_float_z (o : foracle) (s : list N) : F * Z :=
   match parseF o s with Some x => (x, 0%Z) | None => ([48%N], 2%Z) end.
+
+(* == on float64 values given by their canonical texts (NaN differs from everything, 0 == -0) *)
+Definition go_feq (x y : F) : bool := Smtext.feq x y.
